@@ -4,6 +4,7 @@ package main
 import (
 	"evylang.dev/evy/vdrv/c02"
 	"evylang.dev/evy/vdrv/c08"
+	_ "evylang.dev/evy/vdrv/c08l2"
 	"evylang.dev/evy/vdrv/c14"
 	"evylang.dev/evy/vdrv/c15"
 	"evylang.dev/evy/vdrv/c18"
